@@ -77,6 +77,10 @@ func outDir() string {
 }
 
 func shardNo() int {
+	if os.Getenv("VERIF_FUZZ") == "1" {
+		// native fuzzing runs the property in several worker processes that share the environment
+		return 100000 + os.Getpid()
+	}
 	n, _ := strconv.Atoi(os.Getenv("VERIF_SHARD"))
 	return n
 }
